@@ -169,3 +169,19 @@ PROPS["C19"] = {
     "outside": ["NOT APPLICABLE PART: query-language semantics and the kv indexers' Search (reflect / regexp / float and time parsing over strings cannot be made symbolic in a bit-vector engine; with concrete strings it would be enumeration)", "the indexer service loop (state/txindex/indexer_service.go)", "unbuffered subscriptions"],
     "timeout_quick": 300, "timeout_thorough": 3000,
 }
+
+PROPS["C18"] = {
+    "files": ["store/store.go"],
+    "groups": [
+        {"dir": "store",
+         "quick": ["VP_C18_Save_n3", "VP_C18_Save_n3_crash", "VP_C18_Prune_n4", "VP_C18_Prune_n4_crash", "VP_C18_Prune_n4_parts"],
+         "thorough": ["VP_C18_Prune_n6_crash", "VP_C18_PruneBatchBoundary"]},
+    ],
+    "bounds": {
+        "block store": "real BlockStore on the real MemDB behind a crash-injecting wrapper; chains of 3..4 (thorough 6) blocks with 2 transactions, single-part or multi-part (part size 64), really marshalled; SaveBlock of every block, then PruneBlocks to a symbolic retain height in [1, n]; one simulated crash before any single write / batch write; reopen (NewBlockStore on what is on disk) and audit of [base, height]: meta, block (hash equals id), every part, hash index, commit (seen commit at the tip)",
+        "batch boundary (thorough)": "1003 blocks, PruneBlocks(1002) with a crash at each of its writes (the 1000-height intermediate flush)",
+    },
+    "stubs": ["database = real tm-db MemDB; batch writes atomic (goleveldb contract), single writes atomic"],
+    "outside": ["state store (validators / params per height): see C08 history harness; PruneStates", "two crashes in one scenario", "commit signature verification of stored commits (C07)"],
+    "timeout_quick": 300, "timeout_thorough": 3000,
+}
